@@ -626,6 +626,17 @@ impl Prop for C20 {
         c
     }
 
+    fn preludes(&self, _sc: &WsSc) -> Vec<WsSc> {
+        [SizeMode::Compressed, SizeMode::Uncompressed]
+            .into_iter()
+            .map(|mode| WsSc {
+                mode,
+                steps: vec![WsStep::Send(vec![WsMsg::Binary(mode.pong().to_vec())])],
+                end: WsEnd::Close,
+            })
+            .collect()
+    }
+
     fn rule(&self) -> String {
         "Each case is one WebSocket session over a loopback TCP pair: a frame stream is partitioned into binary messages (one frame per message, several per message, cut anywhere in small or large pieces incl. messages larger than 1020 and 6120 bytes, every message starting inside a frame, everything in one message), interleaved with text / ping / pong / empty binary messages; the server sends them in batches and after each batch the real Framed over the real WebsocketStream reads every completed frame; the application occasionally writes; the session ends with a close handshake or an abrupt TCP drop. Oracle: reads return the model's result per frame of the concatenated binary payloads; a keep-alive or a write reaches the server as exactly one binary message equal to the frame; clean close => Disconnected; abrupt drop => Disconnected or an I/O error, never a packet, never a hang. Non-trivial = more than one binary message; distinct = sequence of (message kind, log2 size, frames completed, starts-inside-a-frame).".into()
     }
